@@ -254,11 +254,47 @@ def rule_nested(prog, rep):
                         "value_of_correct_type has a path that accepts a Value::%s without visiting the values nested in it: a variable used there (`{k: $undefined}` given to a custom scalar) is never checked against the operation's variable definitions (spec 5.8.3 All Variable Uses Defined)" % v, f.loc())
 
 
+def rule_varpos(prog, rep):
+    """C17.VARPOS: All Variable Usages Are Allowed (spec 5.8.5) holds at every position a variable
+    can stand in - an argument, an input object field, a list item.  Arguments are checked by
+    validate_variable_usage in the callers; nested positions are reached only through the
+    recursion of value_of_correct_type, so its Variable arm must decide by the spec's
+    compatibility (is_variable_usage_allowed / is_assignable_to), not by comparing the innermost
+    named types (which accepts `In` where `In!` is expected and `[Int]` where `Int` is)."""
+    from ..flow import must_pass
+    rep.floor("C17.VARPOS", 1)
+    f = prog.fn(r"^apollo_compiler::validation::value::value_of_correct_type$")
+    sw = None
+    for b in sorted(f.live_blocks()):
+        info = f.switch_info(b)
+        if info and info.get("kind") == "enum" and info["adt"].endswith("ast::Value") and re.search(r"arg4", f.sym(["c", info["place"]])):
+            sw = info
+            break
+    if sw is None:
+        raise Undecided("value_of_correct_type: the switch on the kind of the value was not found")
+    t = sw["edges"].get("Variable")
+    if t is None:
+        raise Undecided("value_of_correct_type: no arm for Value::Variable")
+    through = set()
+    for c in f.live_calls():
+        if re.search(r"::(is_assignable_to|is_variable_usage_allowed|validate_variable_usage)$|::unsupported_type$|DiagnosticList::push$", c.name):
+            through.add(c.block)
+    passed, leak = must_pass(f, [t], f.return_blocks(), through)
+    rep.obligation(passed)
+    if passed:
+        rep.instance("C17.VARPOS", "the Variable arm of value_of_correct_type decides by type compatibility (or reports) on every path")
+    else:
+        weak = [c for c in f.live_calls() if c.name.endswith("inner_named_type") and c.block in f.reachable_blocks([t])]
+        rep.finding("C17.VARPOS", f.name, "named-type-only",
+                    "a variable in a nested position (input object field, list item) is accepted by the Variable arm of value_of_correct_type after comparing %s: list depth and nullability of the position are not checked (IsVariableUsageAllowed is applied to arguments only)" % ("the innermost named types only" if weak else "nothing"), f.loc())
+
+
 def run(prog, rep):
     rule_registry(prog, rep)
     rule_scope(prog, rep)
     rule_shape(prog, rep)
     rule_nested(prog, rep)
+    rule_varpos(prog, rep)
     # verdict conditions decided under sibling properties: IsVariableUsageAllowed / AreTypesCompatible
     # (C29), the type inline fragments are validated against (C18), completeness of the
     # fragment-cycle search (C21)
